@@ -46,21 +46,24 @@ type ErrV struct {
 	Operand []string // runtime kind errors: acceptable operand names ("" = no naming requirement)
 }
 
-// Variants are the choices the documentation does not make. A program is
-// only kept if all variants agree on what it does.
+// Variants are the choices the documentation does not make. The outcome of
+// any combination is acceptable (progcheck.Predict collects the distinct ones).
 type Variants struct {
 	PersistBlocks  bool // block scopes are reused when the same block is entered again from the same parent scope
 	LoopPerIter    bool // the loop scope is fresh per iteration (false: one per loop entry)
 	LoopVarLocal   bool // the loop variable is always defined in the loop scope (false: nearest existing definition)
 	FuncStmtLocal  bool // `func f(){}` always defines f locally (false: nearest existing definition)
 	ExceptVarLocal bool // `as e` always defines e in the clause scope (false: nearest existing definition)
+
+	// `otherwise` also runs when the try block is left by return/break/continue (it "raised nothing"); the exit still takes effect afterwards
+	OtherwiseOnExit bool
 }
 
 // AllVariants enumerates all combinations.
 func AllVariants() []Variants {
 	var out []Variants
-	for i := 0; i < 32; i++ {
-		out = append(out, Variants{i&1 != 0, i&2 != 0, i&4 != 0, i&8 != 0, i&16 != 0})
+	for i := 0; i < 64; i++ {
+		out = append(out, Variants{i&1 != 0, i&2 != 0, i&4 != 0, i&8 != 0, i&16 != 0, i&32 != 0})
 	}
 	return out
 }
@@ -466,8 +469,14 @@ func (in *Interp) try(s *S, sc *Scope) signal {
 			res = in.block(s.Oth.Body, in.child(sc, s.ID*1000+900), nil)
 		}
 	default: // break / continue / return leave the block without an error
-		if s.Oth != nil {
-			return unspec("otherwise-after-control-exit")
+		if s.Oth != nil && in.V.OtherwiseOnExit {
+			osig := in.block(s.Oth.Body, in.child(sc, s.ID*1000+900), nil)
+			if osig.kind == sigUnspec {
+				return osig
+			}
+			if osig.kind != sigNone {
+				return unspec("otherwise-after-control-exit-does-not-fall-through")
+			}
 		}
 	}
 	if res.kind == sigUnspec {
